@@ -292,7 +292,7 @@ def threshold_event(ev, s, o, m, qs, gam, h=1, extra_targets=(), form=None, only
     rs = sorted(set(only_targets)) if only_targets is not None else sorted(set(targets(o, m, qs)) | set(extra_targets))
     e = ev("threshold", h=h, m=m, r=[[f.numerator, f.denominator] for f in rs],
            lin=[], lo=[], hi=[], c={"lin": [], "lo": [], "hi": []},
-           lo_is_score=[], hi_is_score=[], alias_same=True, scalar_same=True)
+           lo_is_score=[], hi_is_score=[], alias_same=True, scalar_same=True, targets_untouched=True)
     try:
         rf = np.array([f.numerator / f.denominator for f in rs])
         S = rel_scores(o, m)
@@ -303,8 +303,15 @@ def threshold_event(ev, s, o, m, qs, gam, h=1, extra_targets=(), form=None, only
             arg = rf[np.asarray(order)]         # array when their number is even
             if len(rf) % 2 == 0:
                 arg = arg.reshape(2, -1)
+        # the caller's target array: sometimes read-only (np.broadcast_to / memmaps / pandas give such arrays),
+        # never modified by a query
+        keep = np.array(arg, copy=True) if isinstance(arg, np.ndarray) else None
+        if keep is not None and (e["id"] % 3 == 0) and arg.flags.owndata:
+            arg.flags.writeable = False
         for key, method in METHODS.items():
             t = np.asarray(fn(arg, method=method), dtype=float)
+            if keep is not None and not np.array_equal(arg, keep):
+                e["targets_untouched"] = False
             if order is not None and t.shape == arg.shape:
                 back = np.empty(len(rf))
                 back[np.asarray(order)] = t.ravel()
